@@ -15,10 +15,17 @@ structure PDiag where
   quoted : List (Nat × List Char) := []
   deriving Repr, DecidableEq
 
-abbrev W (α : Type) := α × List PDiag
+/-- a diagnostic of the lexer before the line it belongs to is attached (every lexer diagnostic quotes
+exactly the line being lexed) -/
+abbrev LDiag := ErrorLevel × String
 
-def tooShort (ln : Nat) (line : List Char) : PDiag := ⟨.invalidating, "Line too short", [(ln, line)]⟩
-def invalidData (ln : Nat) (line : List Char) : PDiag := ⟨.invalidating, "Invalid data in field", [(ln, line)]⟩
+abbrev W (α : Type) := α × List LDiag
+
+def tooShort (_ln : Nat) (_line : List Char) : LDiag := (.invalidating, "Line too short")
+def invalidData (_ln : Nat) (_line : List Char) : LDiag := (.invalidating, "Invalid data in field")
+
+def attachLine (ln : Nat) (line : List Char) (ds : List LDiag) : List PDiag :=
+  ds.map fun d => ⟨d.1, d.2, [(ln, line)]⟩
 
 /-- `parse_default`: the byte range `[a, b)` of the line, trimmed, parsed by `p`, or the default plus a
 diagnostic -/
@@ -86,8 +93,8 @@ def lexAtomBasics (ln : Nat) (line : List Char) :
       let c78 := line[78]?.getD ' '
       let c79 := line[79]?.getD ' '
       if c78 == ' ' && c79 == ' ' then (0, [])
-      else if !isDigit c78 then (0, [⟨.invalidating, "Atom charge is not correct", [(ln, line)]⟩])
-      else if c79 != '-' && c79 != '+' then (0, [⟨.invalidating, "Atom charge is not correct", [(ln, line)]⟩])
+      else if !isDigit c78 then (0, [(.invalidating, "Atom charge is not correct")])
+      else if c79 != '-' && c79 != '+' then (0, [(.invalidating, "Atom charge is not correct")])
       else ((if c79 == '-' then -(digitVal c78 : Int) else (digitVal c78 : Int)), [])
     else (0, [])
   ((serial, name, optChar alt, resName, [chain], resSeq, optChar ins, element, charge),
@@ -224,27 +231,27 @@ def lexSsbond (ln : Nat) (line : List Char) : W LexItem :=
   let (s2, e7) := fIsize ln line 31 35
   let (i2, e8) : W (Option (List Char)) :=
     if (line[35]?).all (· == ' ') then (none, []) else let (c, e) := charW ln line 35; (some [c], e)
-  let e9 : List PDiag :=
+  let e9 : List LDiag :=
     if line.length ≥ 78 then (fStr ln line 59 65).2 ++ (fStr ln line 66 72).2 ++ (fF64 ln line 73 78).2 else []
   (.ssbond r1 s1 i1 [c1] r2 s2 i2 [c2], e1 ++ e2 ++ e3 ++ e4 ++ e5 ++ e6 ++ e7 ++ e8 ++ e9)
 
 /-- `lex_remark`: at Medium and Strict an over-long line additionally yields a general warning -/
 def lexRemark (ln : Nat) (line : List Char) (lvl : Strictness) : W LexItem :=
   let (num, e1) := fUsize ln line 7 10
-  let e2 : List PDiag :=
-    if Gen.remarkTypes.contains num then [] else [⟨.looseWarning, "Remark type number invalid", [(ln, line)]⟩]
+  let e2 : List LDiag :=
+    if Gen.remarkTypes.contains num then [] else [(.looseWarning, "Remark type number invalid")]
   if byteLen line > 11 then
-    let e3 : List PDiag :=
-      if byteLen (trimEnd line) ≥ 80 && lvl != .loose then [⟨.generalWarning, "Remark too long", [(ln, line)]⟩] else []
+    let e3 : List LDiag :=
+      if byteLen (trimEnd line) ≥ 80 && lvl != .loose then [(.generalWarning, "Remark too long")] else []
     (.remark num (trimEnd ((dropBytes line 11).getD [])), e1 ++ e2 ++ e3)
   else (.remark num [], e1 ++ e2)
 
-def lexHeader (ln : Nat) (line : List Char) : Except PDiag (W LexItem) :=
-  if line.length < 66 then .error ⟨.looseWarning, "Header too short", [(ln, line)]⟩
+def lexHeader (_ln : Nat) (line : List Char) : Except LDiag (W LexItem) :=
+  if line.length < 66 then .error (.looseWarning, "Header too short")
   else .ok (.header ((line.drop 62).take 4), [])
 
-/-- `lex_line`: `Except.error` = the line yields only an error (no item) -/
-def lexLine (line : List Char) (ln : Nat) (lvl : Strictness) (onlyAtomic : Bool) : Except PDiag (W LexItem) :=
+/-- `lex_line` before the line context is attached -/
+def lexLineRaw (line : List Char) (ln : Nat) (lvl : Strictness) (onlyAtomic : Bool) : Except LDiag (W LexItem) :=
   if byteLen line > 6 then
     let head := String.ofList ((getBytes line 0 6).getD [])
     let full := !onlyAtomic
@@ -280,5 +287,12 @@ def lexLine (line : List Char) (ln : Nat) (lvl : Strictness) (onlyAtomic : Bool)
     let head := String.ofList ((getBytes line 0 3).getD [])
     if head == "TER" then .ok (.ter, []) else if head == "END" then .ok (.endd, []) else .ok (.empty, [])
   else .ok (.empty, [])
+
+/-- `lex_line`: `Except.error` = the line yields only an error (no item); every diagnostic quotes the line -/
+def lexLine (line : List Char) (ln : Nat) (lvl : Strictness) (onlyAtomic : Bool) :
+    Except PDiag (LexItem × List PDiag) :=
+  match lexLineRaw line ln lvl onlyAtomic with
+  | .error d => .error ⟨d.1, d.2, [(ln, line)]⟩
+  | .ok (item, ds) => .ok (item, attachLine ln line ds)
 
 end PdbModel
